@@ -531,6 +531,40 @@ Proof.
 Qed.
 Print Assumptions C06_array_entry_transformation_refuted.
 
+(* EXACTLY which FILL-array texts are affected by finding array_entry_transformation.
+   A FILL array as written = ranges, then one entry per element: a universe number
+   optionally followed by a transformation in parentheses (MCNP: it belongs to that
+   entry).  The code sees the flattened tokens.  mcnp_equivalent k us es: the code
+   kept the universes us, and every entry's own transformation equals the single
+   transformation the code keeps for the whole array.  The text is read as MCNP reads
+   it IF AND ONLY IF no entry carries a transformation or the array has one element;
+   every other text (a transformation on any entry of an array of two or more
+   elements) is misread - silently when the flattened tokens still parse. *)
+Theorem C06_fill_array_read_as_mcnp :
+  forall (first : string) (more : list string) (bs : bounds) (es : list (string * list string))
+         (us : list Z) (tail : list string),
+  Forall2 spells_range (first :: more) bs -> wf_bounds bs ->
+  Forall2 spells_int (map fst es) us -> Z.of_nat (List.length us) = size bs ->
+  Forall (fun e => Forall tr_token (snd e)) es -> keyword_or_end tail ->
+  ((exists k, parse_fill_kw first (more ++ flatten_entries es ++ tail)%list = Ok k /\
+              mcnp_equivalent k us es)
+   <-> ((forall e, In e es -> snd e = []) \/ List.length es = 1%nat)).
+Proof. exact fill_array_read_as_mcnp. Qed.
+Print Assumptions C06_fill_array_read_as_mcnp.
+
+(* whatever the grouping by parentheses, what the code keeps is: the first
+   size(ranges) tokens as universes and ALL the other numeric tokens as one
+   transformation *)
+Theorem C06_parse_fill_kw_flat :
+  forall (first : string) (more : list string) (bs : bounds) (toks tail : list string) k,
+  Forall2 spells_range (first :: more) bs -> wf_bounds bs ->
+  Forall (fun t => ends_plain t /\ is_num_start t = true /\ has_colon t = false) toks ->
+  (size bs <= Z.of_nat (List.length toks))%Z -> keyword_or_end tail ->
+  parse_fill_kw first (more ++ toks ++ tail)%list = Ok k ->
+  fk_params k = skipn (Z.to_nat (size bs)) toks /\ fk_rest k = tail /\ fk_bounds k = Some bs.
+Proof. exact parse_fill_kw_flat. Qed.
+Print Assumptions C06_parse_fill_kw_flat.
+
 (* ---- non-vacuity ------------------------------------------------------------ *)
 (* a skew 2-D unit cell: planes x = +-1 (far plane first) and x + y = +-1 (near
    plane first, normal of the first one pointing into the cell) *)
@@ -572,4 +606,20 @@ Proof.
   repeat split.
   - exists "-03"%string, "+1"%string. repeat split; reflexivity.
   - exists "0"%string, "0"%string. repeat split; reflexivity.
+Qed.
+
+(* the witness of the finding satisfies the hypotheses of C06_fill_array_read_as_mcnp:
+   three entries, the last one with (0 1 0) *)
+Example C06_example_entry_tr :
+  let es := [("5", []); ("5", []); ("5", ["0"; "1"; "0"])]%string in
+  Forall2 spells_int (map fst es) [5; 5; 5]%Z /\
+  Forall (fun e => Forall tr_token (snd e)) es /\
+  flatten_entries es = ["5"; "5"; "5"; "0"; "1"; "0"]%string /\
+  ~ ((forall e, In e es -> snd e = []) \/ List.length es = 1%nat).
+Proof.
+  cbv zeta. split; [repeat constructor|]. split.
+  - repeat constructor; try reflexivity; (eexists; split; [reflexivity|left; reflexivity]).
+  - split; [reflexivity|]. intros [H|H]; [|discriminate H].
+    specialize (H ("5"%string, ["0"; "1"; "0"]%string)). cbn in H.
+    assert (X : ["0"; "1"; "0"]%string = []) by (apply H; tauto). discriminate X.
 Qed.
